@@ -193,7 +193,8 @@ def judge(case, val, out):
             return None
         # fragile rank decision?
         d = [unhex(a) for a in tp["d"]] if tp else [0, 0, 0]
-        if any(abs(v - EPS) < 1e-18 for v in d):
+        tol = max(EPS, d[0] * 3 * EPS)
+        if any(abs(v - tol) <= 1e-6 * tol for v in d):   # fragile rank decision
             return None
         return _mv("implementation refused, model returns a result")
     r, t, c = [unhex(a) for a in out["r"]], [unhex(a) for a in out["t"]], unhex(out["c"])
@@ -263,6 +264,15 @@ def gen(ctx):
         elif kind == "single":
             x, y = x[:, :1], y[:, :1]
         cases.append({"kind": "umeyama", "ws": bool(i % 2), "mode": kind, "degenerate": kind, "x": H(x), "y": H(y)})
+    # exactly degenerate sets with LARGE coordinates (finding F11: an absolute rank tolerance misses them)
+    for a in range(3):
+        for mag in (1e3, 1e5, 1e7):
+            for rep in range(ctx.n(10, 30)):
+                n = int(rng.integers(5, 40))
+                x = np.zeros((3, n))
+                x[a] = rng.normal(size=n) * mag
+                cases.append({"kind": "umeyama", "ws": bool(rep % 2), "mode": "axis%d_large" % a, "degenerate": "axis%d, |x| ~ %g" % (a, mag),
+                              "x": H(x), "y": H(rng.normal(size=(3, n)) * float(rng.choice([1.0, mag])))})
     for i in range(ctx.n(8, 30)):
         n = int(rng.integers(2, 20))
         cases.append({"kind": "umeyama", "ws": bool(i % 2), "mode": "unequal", "x": H(rng.normal(size=(3, n))),
